@@ -4,7 +4,7 @@ Driver: a REAL PytorchEngineLineOCR built by its real constructor from a generat
 network file whose frame t depends only on pixel columns [4t, 4t+4) (average pooling; a second stub adds a 3-frame receptive
 field).  Zero padding decodes to blank, so a line's own frames cannot legitimately depend on its batch.
 
-Space (configuration lattice): ALL ordered lists of 0..N lines (with repetitions) over a 15-crop alphabet (widths 1,3,4,5,31,32,33,
+Space (configuration lattice): ALL ordered lists of 0..N lines (with repetitions) over a 19-crop alphabet (widths 1,3,4,5,31,32,33,
 100,290,300, two equal-width twins with different content, one crop wider than the smallest engine maximum) x batch size x mode
 {sparse, dense, tight-crop, no-logits} x stub.  Each list is recognised by a fresh engine, then again in reversed order by the SAME
 engine (history), and once through PageOCR.process_page.
@@ -20,7 +20,7 @@ ID = 'C07'
 
 MANIFEST = dict(
     technique='explicit-state enumeration of all ordered line lists x batch sizes x modes x stub networks on the real engine (real constructor, TorchScript stub); differential oracle = each line recognised alone by a fresh engine',
-    text='Bounded exhaustive: every ordered list of 0-2 line crops over a 15-crop alphabet (widths 1..300, equal-width twins, an over-long crop) x batch size {1,2,3,16} (quick) / 1..16 (thorough) x {sparse, dense, tight-crop, no-logits} x two stub networks, every list of 3 crops for batch sizes {1,16} on the local stub (quick) / all batch sizes and both stubs (thorough), lists of 4 over a 6-crop sub-alphabet (thorough), each recognised, recognised again in reverse order on the same engine, and through PageOCR.process_page. At every position the text, the logits on the line\'s own frames and the frame window must equal those of the line recognised alone; sparse storage must hold exactly the dense logits with posterior >= 1e-4. Added sub-sweeps: crops of 417 / 440 / 448 / 500 px around the smallest engine maximum, a blank crop, a crop with logit range > 200, an embedding engine whose id changes between calls, 260 lines in one call, and a sparsification clause (exactly the entries with posterior >= 1e-4). Crops with identical bytes but different shape/dtype (the float64 placeholder of a failed crop next to a blank uint8 crop) in one call; the call after one in which the network raised out-of-memory once (injected fault).',
+    text='Bounded exhaustive: every ordered list of 0-2 line crops over a 19-crop alphabet (widths 1..300, equal-width twins, an over-long crop) x batch size {1,2,3,16} (quick) / 1..16 (thorough) x {sparse, dense, tight-crop, no-logits} x two stub networks, every list of 3 crops for batch sizes {1,16} on the local stub (quick) / all batch sizes and both stubs (thorough), lists of 4 over a 6-crop sub-alphabet (thorough), each recognised, recognised again in reverse order on the same engine, and through PageOCR.process_page. At every position the text, the logits on the line\'s own frames and the frame window must equal those of the line recognised alone; sparse storage must hold exactly the dense logits with posterior >= 1e-4. Added sub-sweeps: crops of 417 / 440 / 448 / 500 px around the smallest engine maximum, a blank crop, a crop with logit range > 200, an embedding engine whose id changes between calls, 260 lines in one call, and a sparsification clause (exactly the entries with posterior >= 1e-4). Crops with identical bytes but different shape/dtype (the float64 placeholder of a failed crop next to a blank uint8 crop) in one call; the call after one in which the network raised out-of-memory once (injected fault).',
     note='Stub networks with bounded horizontal receptive field (the property is stated for those); CPU only; float tolerance 1e-5 on logits.',
     ref='3/C07')
 
@@ -345,7 +345,7 @@ def check_case(case, ctx):
 
 def describe(tier):
     return {
-        'rule': 'all ordered lists of 0..depth crops over the 15-crop alphabet (thorough: + depth 4 over a 6-crop sub-alphabet) x batch sizes x '
+        'rule': f'all ordered lists of 0..depth crops over the {len(CROPS)}-crop alphabet (thorough: + depth 4 over a 6-crop sub-alphabet) x batch sizes x '
                 '4 modes x 2 stub networks; each list is recognised twice on one engine (second time reversed) and once through PageOCR. '
                 'state = (list, batch size, stub, mode). Non-trivial: lists with lines of different widths (sorting/padding/permutation matter).',
         'bounds': BOUNDS[tier], 'alphabets': {'crops(width, content)': CROPS, 'modes': MODES, 'stubs(ctx)': STUBS},
